@@ -60,6 +60,8 @@ fn iccma_text(kind: &str) -> &'static str {
         // \u{1} stands for a byte that is not valid UTF-8 (0xE9, Latin-1 e-acute): replaced when the text is turned into bytes
         "cmtBin" => "# g\u{1}n\u{1}r\u{1} par un outil",
         "aBin" => "1 \u{1}2",
+        "aWrap64" => "18446744073709551618 3",
+        "aWrap32" => "1 4294967298",
         _ => panic!("unknown iccma line kind {}", kind),
     }
 }
@@ -219,7 +221,7 @@ fn total_event(fmt: &str, bytes: &[u8], origin: &str) -> String {
 fn argstr_events() -> Vec<String> {
     let mut v = vec![];
     let af_i = Iccma23Reader::default().read(&mut "p af 3\n1 2\n".as_bytes()).unwrap();
-    for (kind, s) in [("one", "1"), ("three", "3"), ("zero", "0"), ("four", "4"), ("neg", "-1"), ("nan", "x"), ("empty", ""), ("big", "99999999999999999999")] {
+    for (kind, s) in [("one", "1"), ("three", "3"), ("zero", "0"), ("four", "4"), ("neg", "-1"), ("nan", "x"), ("empty", ""), ("big", "99999999999999999999"), ("wrap64", "18446744073709551617"), ("wrap32", "4294967297"), ("wrap16", "65537")] {
         let r = catch_unwind(AssertUnwindSafe(|| Iccma23Reader::default().read_arg_from_str(&af_i, s).ok().map(|a| (a.id(), *a.label()))));
         let (res, id, label) = match r {
             Ok(Some((id, l))) => ("ok", id, l),
